@@ -455,6 +455,8 @@ class Machine:
     def binop(self, op, a, b, node):
         if isinstance(op, ast.Add) and type(a) is type(b) and isinstance(a, (tuple, list)):
             return a + b
+        if isinstance(op, ast.BitOr) and isinstance(a, dict) and isinstance(b, dict):
+            return {**a, **b}           # dict | dict
         if isinstance(op, ast.Add) and isinstance(a, str) and isinstance(b, str):
             return a + b
         if isinstance(op, ast.Mult) and isinstance(a, (tuple, list)) and isinstance(b, int) and not isinstance(b, bool):
